@@ -511,13 +511,15 @@ fn main() {
         // every second calls-only program runs on a PLAIN Result function with an IMPURE body: thread 0's calls succeed,
         // the other threads' calls fail for the same arguments (C09 under concurrency: an Err is never stored and never
         // disturbs a stored Ok; once an Ok-storing call has returned, later calls are served)
+        // sync caches are drawn too (development switch VERIF_SCHED_ASYNC_ONLY_TTLRES restricts the variant to async caches)
+        let sync_too = std::env::var("VERIF_SCHED_ASYNC_ONLY_TTLRES").is_err();
         let cvar = (pi / 4 + seed as usize) % 4;
         // cvar 3: a recognised Result function WITH a ttl (and an entry limit), entries all EXPIRED at the start, thread 0's
         // calls succeed and the others' FAIL: a failing call performs the expired-lookup purge and then stores nothing, so a purge
         // that is not atomic with respect to another thread's complete call (miss, body, store) leaves its damage — a stored key
         // without queue slot — visible at quiescence (the succeeding variants repair it by re-storing the key)
         let ttl_result_hot = calls_only && cvar == 3
-            && usable.iter().any(|s| s.ttl.is_some() && s.limit.map(|l| l <= 3).unwrap_or(false) && s.max_mem.is_none() && s.recognised_result && s.is_async);
+            && usable.iter().any(|s| s.ttl.is_some() && s.limit.map(|l| l <= 3).unwrap_or(false) && s.max_mem.is_none() && s.recognised_result && (s.is_async || sync_too));
         let result_hot = (calls_only && cvar == 1) || ttl_result_hot;
         // every third calls-only program runs on a cache with a TTL (and an entry limit) whose entries are all EXPIRED when
         // the threads start: expired-lookup paths (lookup sees the expired entry, drops its read lock, takes the queue mutex
@@ -525,10 +527,9 @@ fn main() {
         let ttl_hot = (calls_only && cvar == 2) || ttl_result_hot;
         let plain_hot = calls_only && cvar == 0 && variant % 2 == 0;
         let hot_pool: Vec<&md::Spec> = if ttl_result_hot {
-            // async caches only: for a SYNC global TLRU cache (limit 1, ttl 2) the replay of such runs on the interleaving model disagreed
-            // in the thorough tier on the UNCHANGED tree (a false alarm of the machinery, cause not established: see DESIGN.md); every
-            // disagreement was on that sync function, the async ones replayed
-            usable.iter().filter(|s| s.ttl.is_some() && s.limit.map(|l| l <= 3).unwrap_or(false) && s.max_mem.is_none() && s.recognised_result && s.is_async).collect()
+            // (runs on a SYNC TLRU cache with a ttl are not replayed on the interleaving model: exact score ties are broken by real
+            // sub-second ages there — see checklib/sched_stream.py and DESIGN.md)
+            usable.iter().filter(|s| s.ttl.is_some() && s.limit.map(|l| l <= 3).unwrap_or(false) && s.max_mem.is_none() && s.recognised_result && (s.is_async || (sync_too && !s.is_async))).collect()
         } else if ttl_hot {
             usable.iter().filter(|s| s.ttl.is_some() && s.limit.map(|l| l <= 3).unwrap_or(false) && s.max_mem.is_none() && !s.is_result && s.is_async == (variant % 2 == 1)).collect()
         } else if result_hot {
